@@ -358,4 +358,110 @@ def q_c08_get_fingerprint(bodies):
                 check_message=(problems[0][0] if problems else "get_fingerprint is the XOR over exactly the range's entries"))
 
 
-QUERIES_C08 = [q_c08_get_range, q_c08_get_fingerprint]
+def q_c08_get_first(bodies):
+    """`StoreInstance::get_first` executed: the scan is over the RECORDS table with `RecordsBounds::namespace(own namespace)`;
+    the answer is the identifier (namespace, author, key) of the FIRST row of that scan — forwards, its own key columns in
+    this order — and the default identifier exactly when the scan is empty; storage errors are reported."""
+    name = "c08_get_first"
+    from stdmodels import PMExec, Inconclusive, std_models
+    hits = _find(bodies, r"^store::fs::<impl at [^>]*>::get_first$", r"StoreInstance")
+    fields = _tables_fields()
+    m = re.search(r"pub struct StoreInstance<'a> \{(.*?)\n\}", _src("src/store/fs.rs"), re.S)
+    sf = re.findall(r"^\s*(?:pub(?:\([^)]*\))? )?(\w+)\s*:", m.group(1), re.M) if m else []
+    if len(hits) != 1 or "records" not in fields or sorted(sf) != ["namespace", "store"]:
+        return dict(name=name, property="C08", verdict="inconclusive", detail="get_first / layouts not found (%d %s)" % (len(hits), sf), functions=[])
+    problems, nq, ncases, funcs = [], 0, 0, set()
+    for K in (0, 1, 2):
+        smt = Smt()
+        for f, n in (("C_Ok", 1), ("C_Err", 1), ("C_Some", 1), ("C_None", 0), ("C_Continue", 1), ("C_Break", 1), ("C_tuple2", 2), ("C_tuple3", 3), ("C_seq", 1), ("C_nsbounds", 1), ("C_asref", 1), ("mk_id", 3), ("C_kguard", 3), ("discr", 1)):
+            smt.fun(f, n)
+        for c in ("SELF", "STORE", "MYNS", "TBL", "TERR", "RERR", "ROWERR", "DEFAULTID", "VG", "UNIT"):
+            smt.decls.append("(declare-const %s V)" % c)
+        for i in range(K):
+            for c in ("NS%d", "AU%d", "KEY%d"):
+                smt.decls.append("(declare-const %s V)" % (c % i))
+        for b in ("tables_ok", "range_ok", "row_ok"):
+            smt.decls.append("(declare-const %s Bool)" % b)
+        rows = ["(C_tuple2 (C_kguard NS%d AU%d KEY%d) VG)" % (i, i, i) for i in range(K)]
+        models = std_models()
+
+        def m_range(ex, v, env, rows=rows):
+            env["__log"] = env.get("__log", ()) + (("range", v[0], _deep(ex, env, v[1])),)
+            seq = ex.new_seq(env, [("(C_Ok %s)" % r) for r in rows])
+            return [("range_ok", "(C_Ok %s)" % seq), ("(not range_ok)", "(C_Err RERR)")]
+        m_range.wants_env = True
+
+        def m_next(ex, v, env):
+            from stdmodels import seq_next
+            it = seq_next(ex, env, v[0])
+            if it is None:
+                return "C_None"
+            env["__log"] = env.get("__log", ()) + (("next",),)
+            return [("row_ok", "(C_Some %s)" % it), ("(not row_ok)", "(C_Some (C_Err ROWERR))")]
+        m_next.wants_env = True
+
+        def m_back(ex, v, env):
+            env["__log"] = env.get("__log", ()) + (("next_back",),)
+            raise Inconclusive("the scan is read from its far end")
+        m_back.wants_env = True
+
+        def m_value(ex, v, env):
+            g = _deep(ex, env, v[0])
+            if g.startswith("(C_kguard "):
+                a, b, c = split_sexpr_args(g)
+                return "(C_tuple3 (ref %s) (ref %s) %s)" % (a, b, c)
+            raise Inconclusive("AccessGuard::value on %s" % g[:50])
+        m_value.wants_env = True
+        models.update({
+            r"^<store::fs::Store as AsMut<store::fs::Store>>::as_mut$": lambda ex, v: v[0],
+            r"^store::fs::Store::tables$": lambda ex, v: [("tables_ok", "(C_Ok (ref TBL))"), ("(not tables_ok)", "(C_Err TERR)")],
+            r"^RecordsBounds::namespace$": lambda ex, v: "(C_nsbounds %s)" % v[0],
+            r"^RecordsBounds::as_ref$": lambda ex, v: "(C_asref %s)" % mk_deref(v[0]),
+            r" as ReadableTable<.*>>::range::<": m_range,
+            r"^<redb::Range<.*> as Iterator>::next$": m_next,
+            r"^<redb::Range<.*> as DoubleEndedIterator>::next_back$": m_back,
+            r"^AccessGuard::<'_, .*>::value$": m_value,
+            r"^RecordIdentifier::new::<": lambda ex, v: "(mk_id %s %s %s)" % (mk_deref(v[0]), mk_deref(v[1]), v[2]),
+            r"^<RecordIdentifier as (std::default::)?Default>::default$": lambda ex, v: "DEFAULTID",
+        })
+        ex = PMExec(bodies, smt, models=models, max_paths=500, max_depth=4000)
+        try:
+            paths = ex.run(hits[0], ["SELF"], heap0={("SELF", str(sf.index("namespace"))): "MYNS", ("SELF", str(sf.index("store"))): "STORE"}, feasibility=False)
+        except (Inconclusive, ValueError, AssertionError, KeyError, IndexError, RecursionError) as e:
+            problems.append(("get_first can be followed", "inconclusive", "K=%d: %r" % (K, e)))
+            continue
+        funcs |= ex.inlined
+        RECORDS = "(addr (ref TBL) %s)" % ex.ksym(str(fields.index("records")))
+        for pc, ret, calls, env in paths:
+            nq += 1
+            v, _ = solve(smt.script("(and true %s)" % " ".join(pc)))
+            if v == "unsat":
+                continue
+            ncases += 1
+            flat = " ".join(pc)
+            tag = "rows=%d path=%s" % (K, pc[:4])
+            log = env.get("__log", ())
+            if "(not tables_ok)" in flat or "(not range_ok)" in flat or "(not row_ok)" in flat:
+                if not ret.startswith("(C_Err"):
+                    problems.append(("a storage error is reported", "sat", tag + " ret=%s" % ret[:60]))
+                continue
+            scans = [l for l in log if l[0] == "range"]
+            if len(scans) != 1 or scans[0][1] != RECORDS or scans[0][2] != "(C_asref (C_nsbounds MYNS))":
+                problems.append(("get_first scans the records table over exactly the document's own namespace", "sat", tag + " scans=%s" % (scans,)))
+                continue
+            want = "(C_Ok DEFAULTID)" if K == 0 else "(C_Ok (mk_id NS0 AU0 KEY0))"
+            if ret != want or len([l for l in log if l[0] == "next"]) > 1:
+                problems.append(("get_first answers with the identifier (namespace, author, key) of the first row of the document, and with the default identifier exactly when the document is empty", "sat", tag + " ret=%s" % ret[:80]))
+    verdict = "holds"
+    if any(p[1] == "inconclusive" for p in problems):
+        verdict = "inconclusive"
+    if any(p[1] != "inconclusive" for p in problems):
+        verdict = "violated"
+    problems.sort(key=lambda p: p[1] == "inconclusive")
+    return dict(name=name, property="C08", verdict=verdict, detail="feasible paths=%d; problems: %s" % (ncases, problems[:4] or "none"),
+                functions=sorted(funcs) + ["redb Table::range / Range::next (modelled: the K rows of the document in key order), RecordsBounds::namespace (Kani harness bounds_namespace_*)"],
+                queries=nq, cases=ncases, witness="c08range",
+                check_message=(problems[0][0] if problems else "get_first is the first id of the document or the default id"))
+
+
+QUERIES_C08 = [q_c08_get_range, q_c08_get_fingerprint, q_c08_get_first]
